@@ -954,8 +954,22 @@ func checkModuleGenesisGlue(p *Prog, r *Report, kp func(string, string) string, 
 				case *ssa.MapUpdate:
 					return p.Pos(x.Pos()), true
 				case *ssa.Store:
-					switch x.Addr.(type) {
-					case *ssa.FieldAddr, *ssa.IndexAddr:
+					switch a := x.Addr.(type) {
+					case *ssa.IndexAddr:
+						// the argument list of a variadic call (a logger's key/value pairs) is a fresh local array
+						if _, local := a.X.(*ssa.Alloc); local {
+							continue
+						}
+						return p.Pos(x.Pos()), true
+					case *ssa.FieldAddr:
+						// a literal of a type declared outside the module (an abci value under construction) is not the genesis state
+						if al, local := a.X.(*ssa.Alloc); local {
+							if pt, ok := al.Type().Underlying().(*types.Pointer); ok {
+								if n, ok := pt.Elem().(*types.Named); ok && (n.Obj().Pkg() == nil || !strings.HasPrefix(n.Obj().Pkg().Path(), ModPath)) {
+									continue
+								}
+							}
+						}
 						return p.Pos(x.Pos()), true
 					}
 				}
